@@ -92,7 +92,7 @@ def plan(tier, seed):
         if rnd.random() < 0.08:
             # the protocol is known but the query is refused: a well-formed error reply
             kw["kitty_graphics"] = rnd.choice(["EINVAL:Unsupported action: q", "ENOTSUPPORTED:graphics are switched off", "EBADF:no such channel"])
-        shard = dict(persona="other", persona_kw=kw, seed=seed, index=i, env_term_program=None if xt else rnd.choice([None, (name, version), ("Apple_Terminal", "440"), (name, None)]), timeout=rnd.choice([0.25, 0.4]))
+        shard = dict(persona="other", persona_kw=kw, seed=seed, index=i, env_term_program=rnd.choice([None, None, ("tmux", "3.3a"), ("vscode", None)]) if xt else rnd.choice([None, (name, version), ("Apple_Terminal", "440"), (name, None)]), timeout=rnd.choice([0.25, 0.4]))
         shards.append(shard)
     # a fixed set of corner identities, in every run
     def fixed(**kw):
@@ -108,6 +108,9 @@ def plan(tier, seed):
         (fixed(name="st-term", version="0.9", xtversion_style="space"), None),
         (fixed(name="foot", version=None), None),
         (fixed(name="kitty", version="0.30.1", kitty_graphics="EINVAL:Unsupported action: q"), None),
+        (fixed(name="foot", version=None), ("tmux", "3.3a")),
+        (fixed(name="Konsole", version=None, xtversion_style="space", kitty_graphics=True), ("tmux", "23.08.1")),
+        (fixed(name="WezTerm", version="20230712-072601-f4abf8fd", xtversion_style="space"), ("vscode", "1.90.0")),
         (fixed(name="Konsole", version="23.08.1", xtversion_style="space", kitty_graphics="ENOTSUPPORTED:c"), None),
     ]
     for j, (kw, tp) in enumerate(corners):
@@ -147,17 +150,17 @@ def support_case(shard, env, res):
     support_timeout = 5.0 if kw["da1"] else max(1.0, shard["timeout"])
     term_image.set_query_timeout(support_timeout)
     name, version = kw["name"], kw["version"]
-    if not kw["xtversion"]:
-        tp = shard.get("env_term_program")
-        if tp:
-            os.environ["TERM_PROGRAM"] = tp[0]
-            if tp[1] is None:
-                os.environ.pop("TERM_PROGRAM_VERSION", None)
-            else:
-                os.environ["TERM_PROGRAM_VERSION"] = tp[1]
-            name, version = tp
+    tp = shard.get("env_term_program")
+    if tp:
+        # (the environment may describe another program -- a multiplexer, an ssh client --
+        # also when the terminal answers for itself)
+        os.environ["TERM_PROGRAM"] = tp[0]
+        if tp[1] is None:
+            os.environ.pop("TERM_PROGRAM_VERSION", None)
         else:
-            name = version = None
+            os.environ["TERM_PROGRAM_VERSION"] = tp[1]
+    if not kw["xtversion"]:
+        name, version = tp if tp else (None, None)
     t0 = time.monotonic()
     try:
         auto = ti.auto_image_class()
